@@ -21,7 +21,7 @@ def harness_pairs(chk, progs, tag):
         o = json.loads(line)
         chk.add("evaluations")
         if "panic" in o:
-            chk.report("panic:%s" % o["panic"]["loc"].replace("/repo/", ""),
+            chk.report("panic:%s" % lib.norm_loc(o["panic"]["loc"]),
                        "compiling panics: %s\n%s" % (o["panic"]["msg"], o["text"]), {"program": o["text"], "panic": o["panic"]})
         elif "rejected" in o:
             chk.add("rejected")
